@@ -531,7 +531,55 @@ def r16_9(ctx):
                    'beyond indptr', definite=True)
 
 
+
+def r16_10(ctx):
+    """make_solver, dense LU branch: what is factorised and how the factorisation is applied are ONE decision.  If the transpose is
+    factorised on some condition, lu_solve must use trans=1 under exactly that condition.  Two different tests (c_contiguous for the
+    factorisation, f_contiguous for trans) disagree for arrays that are neither (strided views): inv(B.T) is applied instead of inv(B)."""
+    f = ctx.prog.maybe_func('pyiga.operators.make_solver')
+    if f is None:
+        ctx.undecided('R16.10', 'pyiga.operators.make_solver', 'definition', None, 'not found')
+        return
+    facs = [c for c in ast.walk(f.node) if isinstance(c, ast.Call) and (call_name(c) or '').endswith('lu_factor') and c.args]
+    sols = [c for c in ast.walk(f.node) if isinstance(c, ast.Call) and (call_name(c) or '').endswith('lu_solve')]
+    if not facs or not sols:
+        ctx.undecided('R16.10', f.qual, 'LU factorisation and its application', f.node, 'not recognised')
+        return
+    from sa import treecmp
+
+    def cond_of(e, at):
+        """(test, value-if-true, value-if-false) if e is (or resolves to) a conditional expression"""
+        e2 = resolve.expand(e, at) if isinstance(e, ast.Name) else e
+        if isinstance(e2, ast.IfExp):
+            return e2
+        return None
+    for fc in facs:
+        arg = fc.args[0]
+        fcond = cond_of(arg, fc)
+        for sc in sols:
+            tr = kwarg(sc, 'trans')
+            tcond = cond_of(tr, sc) if tr is not None else None
+            plain_t = tr is None or (isinstance(tr, ast.Constant) and tr.value == 0)
+            if fcond is None and plain_t:
+                transposed = isinstance(arg, ast.Attribute) and arg.attr in ('T', 'H')
+                ctx.decide('R16.10', f.qual, '%s / %s' % (src(fc)[:50], src(sc)[:50]), False if transposed else True, sc,
+                           'the matrix itself is factorised and applied without transposition', definite=True)
+            elif fcond is not None and tcond is not None:
+                same = treecmp.compare(fcond.test, tcond.test)[0] == 'equal'
+                neg = treecmp.compare(ast.UnaryOp(op=ast.Not(), operand=fcond.test), tcond.test)[0] == 'equal'
+                if same or neg:
+                    ctx.met('R16.10', f.qual, 'factorisation and trans= selected by one test: %s' % src(fcond.test)[:50], sc)
+                else:
+                    ctx.violated('R16.10', f.qual, 'lu_factor(%s) / trans=%s' % (src(arg)[:50], src(tcond)[:50]), sc,
+                                 'which matrix is factorised is decided by `%s`, whether the transposed system is solved by `%s`: the two tests agree for '
+                                 'C- and F-ordered arrays but not for a strided view (K[1:-1, 1:-1] is neither), for which lu_factor(B) is combined with '
+                                 'trans=1 and the operator applies inv(B.T)' % (src(fcond.test)[:40], src(tcond.test)[:40]))
+            else:
+                ctx.undecided('R16.10', f.qual, '%s / %s' % (src(fc)[:50], src(sc)[:50]), sc, 'transposition handled in a form this rule does not read')
+
+
 def run(ctx):
+    r16_10(ctx)
     r16_9(ctx)
     r16_8(ctx)
     r16_7(ctx)
